@@ -95,7 +95,7 @@ static void observe(RimeSessionId s, int ret, const std::string& text) {
     api->free_context(&ctx);
     // the segment list itself (never reported to a client): |composition input| and, per segment,
     // start-end-length-status-selected_index-tags (a=abc r=raw p=partial g=paging e=selected_before_editing h=phony
-    // l=placeholder; other tags are not part of the model) — compared with the model and checked for geometry
+    // l=placeholder u=punct d=punct_number; other tags are not part of the model) — compared with the model and checked for geometry
     {
       auto sess = rime::Service::instance().GetSession(s);
       if (sess && sess->context()) {
@@ -113,6 +113,8 @@ static void observe(RimeSessionId s, int ret, const std::string& text) {
           if (g.HasTag("selected_before_editing")) t += "e";
           if (g.HasTag("phony")) t += "h";
           if (g.HasTag("placeholder")) t += "l";
+          if (g.HasTag("punct")) t += "u";
+          if (g.HasTag("punct_number")) t += "d";   // never set in the modelled schemas (digit separators off)
           o << g.start << "-" << g.end << "-" << g.length << "-" << (int)g.status << "-" << g.selected_index << "-" << (t.empty() ? "0" : t);
         }
       }
